@@ -305,7 +305,10 @@ def gen_c09_pool(rng, n_ident=5):
         src = dict(pick(rng, idents))
         attr = pick(rng, ["subvariant", "type", "format", "arch", "disc_number", "unified", "additional_variants"])
         if attr == "subvariant":
-            src["subvariant"] = pick(rng, [s for s in SUBVARIANTS if s != src["subvariant"]])
+            if rng.random() < 0.3 and isinstance(src["subvariant"], str) and src["subvariant"] == src["subvariant"].strip() and src["subvariant"]:
+                src["subvariant"] = src["subvariant"] + pick(rng, [" ", "  ", "\t"])       # a twin that differs by a trailing blank only
+            else:
+                src["subvariant"] = pick(rng, [s for s in SUBVARIANTS if s != src["subvariant"]])
         elif attr == "type":
             src["type"] = pick(rng, [t for t in ["dvd", "boot", "cd", "netinst", "live"] if t != src["type"]])
         elif attr == "format":
